@@ -228,6 +228,23 @@ def library_failure(e, case):
             "case": jsonable(case)}
 
 
+def _violation_inside(e, depth=0):
+    """the first Violation inside an exception group / cause chain (Hypothesis FlakyFailure carries the original failure)"""
+    if e is None or depth > 6:
+        return None
+    if isinstance(e, Violation):
+        return e
+    for sub in getattr(e, "exceptions", None) or ():
+        v = _violation_inside(sub, depth + 1)
+        if v is not None:
+            return v
+    for nxt in (e.__cause__, e.__context__):
+        v = _violation_inside(nxt, depth + 1)
+        if v is not None:
+            return v
+    return None
+
+
 def run_with_hypothesis(fn, ctx):
     """Run a hypothesis test function (or any callable); convert the outcome to a failure record
     or None.  The last failing execution is the minimal one, so ctx.last_case is what is saved."""
@@ -240,6 +257,16 @@ def run_with_hypothesis(fn, ctx):
         # a property body is either an uncaught library exception (property bodies convert those
         # they consider violations) or a harness bug => harness error.
         tb = traceback.format_exc()
+        v = _violation_inside(e)
+        if v is not None:
+            # Hypothesis reports "flaky" (an exception group) when a failing case passes on replay.  An oracle DID raise the
+            # Violation inside; that the same case passes when run again means the failure depends on what this process did
+            # before (state the library keeps between calls) - the violation is real, only its minimal reproduction is not
+            ctx.failed = True
+            return {"signature": v.signature,
+                    "detail": v.detail + "  [the saved case alone may not reproduce it: the failure depended on earlier cases of the same "
+                                         "process - state kept between calls]",
+                    "case": jsonable(v.case if v.case is not None else ctx.last_case)}
         if e.__class__.__name__ in ("FailedHealthCheck", "Unsatisfiable", "InvalidArgument", "Flaky", "FlakyFailure"):
             raise HarnessError("hypothesis: %s\n%s" % (e, tb))
         lf = library_failure(e, ctx.last_case)
